@@ -23,6 +23,7 @@ def run(repo, report, tier):
     report.guard("C19.R4", "interleaving", r4_interleaved, repo, report)
     report.guard("C19.R4", "log stream", r4_log_stream, repo, report)
     report.guard("C19.R4", "writer layout", r4_writer_layout, repo, report)
+    report.guard("C19.R4", "output options as given", r4_options_not_rewritten, repo, report)
     report.trust("dnaio.open(mode='w') without fileformat takes the format from the .name of a file object only if that attribute is a str, otherwise from 'qualities' (dnaio 1.2.4 singleend._open_single/_open_file_or_path)")
     report.trust("dnaio.open(mode='r') with a fileformat does not look at file names")
     report.notes.append("Not decided: codec round trips, multi-member gzip, FASTA/FASTQ record equivalence (library and runtime behaviour).")
@@ -476,3 +477,19 @@ def r4_writer_layout(repo, report):
                   expected=f"{il[0]}: bool = False, passed on unchanged",
                   why="" if ok else f"the writer's layout falls back to {other[0] if other else src(d) if d is not None else 'another value'}: with --interleaved input, files opened as a pair (e.g. {{name}} demultiplexing with -o/-p) are refused or written interleaved, while the same reads given as two files work")
     report.floor("C19.R4", "record writer factories", n, 2)
+
+
+def r4_options_not_rewritten(repo, report):
+    """'-' is a destination like any other: '-o - -p r2.fastq' is the two-file layout with R1 on standard output.  The code
+    that decides layouts and duplicate paths looks at the parsed options; nothing may rewrite them in between."""
+    mod = repo.module("cli")
+    rew = []
+    for n in ast.walk(mod.tree):
+        tg = n.targets if isinstance(n, ast.Assign) else [n.target] if isinstance(n, (ast.AugAssign, ast.AnnAssign)) else []
+        for t in tg:
+            ch = chain(t) or ""
+            if ch.startswith("args.") and ch[5:] in _STDOUT_CAPABLE:
+                rew.append(f"line {n.lineno}: {src(n)[:70]}")
+    report.ob("C19.R4", "parsed output options are not rewritten", not rew, facts={"assignments": rew}, loc="src/cutadapt/cli.py",
+              expected="no assignment to args.output / args.paired_output / ... after parsing",
+              why=(f"{rew[0]}: the layout decided afterwards differs from what the user asked for (e.g. '-o - -p r2.fastq' is taken for 'no -o' and rejected, while '-o r1.fastq -p r2.fastq' works)" if rew else ""))
